@@ -1,5 +1,68 @@
-import KfacVerif.Model.Comm
+/-
+C14 — triangular packing of symmetric matrices is lossless.
+Model: KV.Comm.getTriu / fillTriu / checkShape / the three communicator entry points
+(kfac/distributed.py).  Property theorems only; helpers in Lemmas/Triu.lean.
+-/
+import KfacVerif.Lemmas.Triu
+
 namespace KV.C14
 open KV KV.Comm
-theorem placeholder : getTriu [] = [] := rfl
+
+-- `Square`, `Symm`, `matSum` are defined (verbatim) in Lemmas/Triu.lean, namespace KV.C14.
+
+/-- the packed vector of an `n × n` matrix has `n(n+1)/2` entries -/
+theorem length_triu {A : Mat} {n : Nat} (hA : Square A n) : (getTriu A).length = n * (n + 1) / 2 :=
+  length_getTriu hA
+
+/-- pack then unpack reproduces a symmetric matrix exactly -/
+theorem fill_get {A : Mat} {n : Nat} (hA : Square A n) (hS : Symm A n) :
+    fillTriu n (getTriu A) = A :=
+  fill_get' hA hS
+
+/-- unpacking always yields a square symmetric matrix -/
+theorem fill_symmetric (n : Nat) (v : List Int) : Square (fillTriu n v) n ∧ Symm (fillTriu n v) n :=
+  ⟨square_fillTriu n v, symm_fillTriu n v⟩
+
+/-- unpack then pack is the identity on vectors of the right length -/
+theorem get_fill {n : Nat} {v : List Int} (hv : v.length = n * (n + 1) / 2) :
+    getTriu (fillTriu n v) = v :=
+  get_fill' hv
+
+/-- packing is linear -/
+theorem getTriu_add {A B : Mat} {n : Nat} (hA : Square A n) (hB : Square B n) :
+    getTriu (matAdd A B) = vecAdd (getTriu A) (getTriu B) :=
+  getTriu_add' hA hB
+
+/-- symmetric all-reduce = dense all-reduce, for any number of ranks:
+    unpacking the sum of the packed matrices gives the sum of the matrices -/
+theorem sym_reduce_eq_dense {n : Nat} (Ms : List Mat) (hne : Ms ≠ [])
+    (hsq : ∀ A ∈ Ms, Square A n) (hsy : ∀ A ∈ Ms, Symm A n) :
+    fillTriu n (sumRanks (Ms.map getTriu)) = matSum Ms :=
+  sym_reduce' Ms hne hsq hsy
+
+/-- symmetric broadcast = dense broadcast: every receiver unpacks the root's packed matrix -/
+theorem sym_bcast_eq_dense {A : Mat} {n : Nat} (hA : Square A n) (hS : Symm A n) :
+    fillTriu n (getTriu A) = A := fill_get hA hS
+
+/-- symmetry-aware mode sends `n(n+1)/2` elements for an `n × n` matrix -/
+theorem triu_count (n : Nat) : commElems [n, n] true = n * (n + 1) / 2 := rfl
+
+/-- shapes that are not 2-D square are rejected … -/
+theorem rejects_nonsquare (shape : List Nat) (h : ¬ ∃ n, shape = [n, n]) :
+    checkShape shape true = .error .nonSquare :=
+  checkShape_nonsquare shape h
+
+theorem accepts_square (n : Nat) (sym : Bool) : checkShape [n, n] sym = .ok () :=
+  checkShape_square n sym
+
+/-- … by all three entry points, BEFORE anything is communicated or any state changes
+    (whenever the group has more than one member; a one-member group returns the tensor as is) -/
+theorem rejects_before_communication (s : CState) (g : Key) (tid : Nat) (shape : List Nat)
+    (es dt src : Nat) (hg : g.length ≠ 1) (h : ¬ ∃ n, shape = [n, n]) :
+    allreduceBucketed s g tid shape es dt true = (s, [], .err .nonSquare) ∧
+    allreduce s g tid shape true = (s, [], .err .nonSquare) ∧
+    broadcast s g tid shape true src = (s, [], .err .nonSquare) := by
+  have hc := checkShape_nonsquare shape h
+  simp [allreduceBucketed, allreduce, broadcast, hg, hc]
+
 end KV.C14
